@@ -1108,6 +1108,8 @@ def make_segment(data, mode, encoding=None):
                 diff = code - 0xc140
             else:  # pragma: no cover
                 raise ValueError(f'Invalid Kanji bytes: {code}')
+            if not 0x40 <= code & 0xff <= 0xfc or code & 0xff == 0x7f:
+                raise ValueError(f'Invalid Kanji bytes: {code}')
             # b) Multiply most significant byte of result by C0HEX;
             # c) Add least significant byte to product from b);
             # d) Convert result to a 13-bit binary string.
@@ -1342,6 +1344,10 @@ def is_kanji(data):
     for i in range(0, data_len, 2):
         code = (next(data_iter) << 8) | next(data_iter)
         if not (0x8140 <= code <= 0x9ffc or 0xe040 <= code <= 0xebbf):
+            return False
+        # The second byte of a double byte Shift JIS character is in range
+        # 0x40 .. 0xFC (excluding 0x7F), other values cannot be compacted
+        if not 0x40 <= code & 0xff <= 0xfc or code & 0xff == 0x7f:
             return False
     return True
 
